@@ -97,14 +97,28 @@ func vxH_C19_alloc() {
 	vxFillBatch(b1, ents)
 	c2, b2 := mk()
 	used := 0
+	separate := vxChoose(2) == 1
 	for _, e := range ents {
 		kb, vb := vxKeyBytes(e.k), vxValBytes(e.v)
 		used += len(kb) + len(vb)
-		buf, err := b2.Alloc(len(kb) + len(vb))
-		vxAssert("alloc-ok", err == nil)
-		copy(buf, kb)
-		copy(buf[len(kb):], vb)
-		ak, av := buf[:len(kb)], buf[len(kb):]
+		var ak, av []byte
+		var err error
+		if separate {
+			// key and value from two Alloc calls (Alloc(0) for an empty one)
+			ak, err = b2.Alloc(len(kb))
+			vxAssert("alloc-ok", err == nil)
+			copy(ak, kb)
+			av, err = b2.Alloc(len(vb))
+			vxAssert("alloc-ok", err == nil)
+			copy(av, vb)
+		} else {
+			var buf []byte
+			buf, err = b2.Alloc(len(kb) + len(vb))
+			vxAssert("alloc-ok", err == nil)
+			copy(buf, kb)
+			copy(buf[len(kb):], vb)
+			ak, av = buf[:len(kb)], buf[len(kb):]
+		}
 		if e.op == OperationSet {
 			err = b2.AllocSet(ak, av)
 		} else if e.op == OperationDel {
